@@ -221,7 +221,8 @@ def safe_width(spec, X, X2, scale_ref):
     """Absolute width that bounds the rounding difference of any score / objective the detector
     reports on X versus T(X) (DESIGN s2, made data dependent).  None = too ill-conditioned."""
     n, p = X.shape
-    gaussian = "GaussianVarCost" in short(spec)
+    gaussian = "GaussianVarCost" in short(spec) or "GaussianCovCost" in short(spec)
+    multivariate = "GaussianCovCost" in short(spec)
     eps = M.EPS
     w = 256 * n * eps * max((X ** 2).sum(), (X2 ** 2).sum()) + 1e-9 * (1 + scale_ref)
     if gaussian:
@@ -240,6 +241,14 @@ def safe_width(spec, X, X2, scale_ref):
                     if lag < n:
                         d2 = min(d2, float(((Z[lag:] - Z[:-lag]) ** 2).min()))
                 vmin = d2 / (2 * L)
+            elif multivariate:
+                mm = max(m, p + 1)
+                if n < mm:
+                    return None
+                win = np.lib.stride_tricks.sliding_window_view(Z, mm, axis=0)  # (n-mm+1, p, mm)
+                c = win - win.mean(axis=2, keepdims=True)
+                covs = np.einsum("wim,wjm->wij", c, c) / mm
+                vmin = float(np.linalg.eigvalsh(covs).min())
             else:
                 win = np.lib.stride_tricks.sliding_window_view(Z, m, axis=0)  # (n-m+1, p, m)
                 vmin = float(win.var(axis=2).min())
